@@ -23,6 +23,10 @@ Judge(c) ==
     [] PROP = "C10" -> P_C10(c)
     [] PROP = "C16" -> P_C16(c)
     [] PROP = "C01" -> P_C01(c)
+    [] PROP = "C17" -> P_C17(c)
+    [] PROP = "C18" -> P_C18(c)
+    [] PROP = "C19" -> P_C19(c)
+    [] PROP = "C20" -> P_C20(c)
     [] OTHER -> FALSE
 Init == l = 0 /\ TLCSet(2, {})
 Step == l <= N /\ l' = l + 1
